@@ -105,6 +105,13 @@ func splitSubPath(src string) (string, string) {
 	subdir := src[idx+2:]
 	src = src[:idx]
 
+	// A sub-path never starts with a slash, so a third slash here belongs
+	// to a package path that itself ends with a slash.
+	if strings.HasPrefix(subdir, "/") {
+		src += "/"
+		subdir = subdir[1:]
+	}
+
 	// Next, check if we have query parameters and push them onto the
 	// URL. (A "?" that follows a "#" belongs to a URL fragment instead.)
 	if idx = strings.IndexAny(subdir, "?#"); idx > -1 && subdir[idx] == '?' {
